@@ -1236,6 +1236,12 @@ func (vm *VirtualMachine) importModule(ctx context.Context, name string) (*objec
 	}
 	module, err := vm.importer.Import(ctx, name)
 	if err != nil {
+		// A module that the importer has found and that does not compile
+		// is not a module that is not there
+		var failed *importer.ModuleError
+		if errors.As(err, &failed) {
+			return nil, err
+		}
 		return nil, &moduleUnavailableError{name: name, err: err}
 	}
 	if vm.importing == nil {
